@@ -19,7 +19,7 @@ META = {
     'level': 'other',
     'technique': 'Lean 4 totality theorems for the modelled parsers (+ engine-level confinement theorems, hooked in) '
                  'AND, as search support only, a seeded fixture-mutation fuzz loop over all 58 built-in filesystem extractors '
-                 'run in-process under recover + 10 s watchdog + 512 MiB live-heap bound',
+                 'run in-process under recover + 10 s watchdog + 512 MiB heap bound',
     'design_ref': 'DESIGN.md §5 C02',
     'text': 'PARTIAL. Proved: the Lean models of the apk, gradle.lockfile, Gemfile.lock, dpkg, requirements.txt and package-lock parsers '
             '(the C03 models) are total functions — they return a value on every byte string, so a model/implementation agreement can only '
@@ -30,7 +30,7 @@ META = {
             'production path names its FileRequired accepts) and on seeded mutations (truncation, bit flips, line/chunk edits, type confusion, '
             'whole-document null/[]/{}/""/0, 10 000-deep nesting in JSON/XML/YAML/TOML, 1e99999 / 400-digit numbers, 70 000-byte lines, NUL, '
             'invalid UTF-8, empty, random bytes). A recovered panic, a process-fatal runtime error, an Extract that has not returned 2 s after its '
-            '10 s context deadline, or a live heap above 512 MiB is reported as VIOLATION with a self-contained replayable case line.',
+            '10 s context deadline, or more than 512 MiB of heap in use is reported as VIOLATION with a self-contained replayable case line.',
     'note': 'The fuzz loop is SEARCH SUPPORT, NOT PROOF (evidence: coverage.unproved_support): absence of a finding is no guarantee. '
             '"Bounded time/memory" is a watchdog observation, never a theorem. The proved part is totality of the modelled parsers (C03 models) '
             'and engine-level confinement. Trusted: Lean kernel; the Go harness (c02gen), its canonical-name table and its process model; '
@@ -295,7 +295,7 @@ def stream(ctx):
         'testdata fixtures and on seeded mutations (%d per fixture in this tier) plus fixture-independent documents (null/[]/{}/""/0, deep nesting, huge '
         'numbers, long lines, NUL, invalid UTF-8, magic numbers of binary formats, random bytes), one fresh temp root per case, ScanInput built like '
         'filesystem.runExtractor does (FS=DirFS(root), Path, Root, Info from the opened file, Reader=the file). Violation = recovered panic | dead worker '
-        '(fatal runtime error) | Extract not back 2 s after its 10 s context deadline | live heap > 512 MiB after a forced GC. '
+        '(fatal runtime error) | Extract not back 2 s after its 10 s context deadline | more than 512 MiB of heap objects in use at a 2 ms sample (process under SetMemoryLimit(512 MiB)). '
         'Coverage is whatever the seeds and %d mutation classes reach; no claim is made about inputs not tried.' % (MUTATIONS[ctx.tier], 24))
     ctx.extra['deadline_cases'] = judge.deadline
     ctx.extra['cases_path_not_accepted'] = judge.not_required
@@ -327,7 +327,7 @@ def run(ctx):
                    '/repo/**/testdata as seed corpus (read by the harness, copied into temp roots; never opened in place by an extractor)',
                    'third-party decoders are NOT modelled: encoding/json, BurntSushi/toml, yaml.v3, encoding/xml, go-rpmdb (+sqlite), bbolt, debug/pe|elf|macho, archive/zip, spdx/cyclonedx readers']
     ctx.assumptions = ['PARTIAL: only the parsers modelled for C03 are proved total; for every other extractor panic-/hang-/memory-freedom is SEARCHED (fuzzing), not proved',
-                       '"bounded time and memory" = 10 s context deadline (+2 s grace) and 512 MiB live heap per Extract call, observed by a watchdog; never a theorem',
+                       '"bounded time and memory" = 10 s context deadline (+2 s grace) and 512 MiB heap in use per Extract call (2 ms sampler), observed by a watchdog; never a theorem',
                        'java/pomxmlnet needs the network (Requirements().Network == NetworkOnline) and is outside the property ("extractors that can run offline")',
                        'FileRequired is probed with default extractor configuration; a path it rejects is outside the property (status skip)',
                        'extractors that read siblings (chrome _locales, go.sum, -r requirements, parent pom.xml, containerd snapshotter db) get the fixture\'s siblings; only the file under test is mutated']
@@ -336,10 +336,11 @@ def run(ctx):
                 'modelled/<fmt> = c03gen malformed inputs of the five line formats run on implementation and Lean model (pk must agree). '
                 'non-trivial = FileRequired accepted the path AND Extract returned at least one package (the parser got far enough to produce output); distinct = distinct case lines. '
                 'distribution key = "<mutation class> <status>"') % (MUTATIONS['quick'], MUTATIONS['thorough'])
-    ctx.lean_build(['Scalibr.Properties.C02', 'drv_c03'])
+    ctx.lean_build(['Scalibr.Properties.C02'] + ENGINE_IMPORTS + ['drv_c03'])
     proofs_ok = ctx.audit(['Scalibr.Properties.C02'] + ENGINE_IMPORTS, THEOREMS)
     if ctx.tier == 'thorough':
-        proofs_ok = ctx.leanchecker('Scalibr.Properties.C02') and proofs_ok
+        for mod in ['Scalibr.Properties.C02'] + ENGINE_IMPORTS:
+            proofs_ok = ctx.leanchecker(mod) and proofs_ok
     if ctx.replay:
         _, modelled_lines = _split_replay(ctx.replay)
         if modelled_lines:
